@@ -241,7 +241,7 @@ class Model:
             from .inventory import FUNCTIONS, MODULE_NAMES
         except ImportError:
             return
-        from .inline import MAX_ROUNDS, canonical_spellings, collapse_return_temps, collapse_test_temps, forward_substitute_new_temps, dissolve_attribute_records, dissolve_parameter_objects, fold_after_inlining, propagate_local_aliases, desugar_ifexp, desugar_match, desugar_exitstacks, desugar_partials_and_extends, desugar_return_all_any, dissolve_new_cm_classes, drop_absorbed_helpers, scalarise_local_objects, desugar_module_name_tables, erase_new_namedtuples, inline_new_helpers, scalarise_local_dicts, unroll_new_tables, propagate_new_constants
+        from .inline import MAX_ROUNDS, canonical_spellings, collapse_return_temps, collapse_test_temps, forward_substitute_new_temps, dissolve_attribute_records, dissolve_parameter_objects, fold_after_inlining, propagate_local_aliases, desugar_ifexp, desugar_match, desugar_exitstacks, desugar_partials_and_extends, desugar_return_all_any, dissolve_new_cm_classes, drop_absorbed_helpers, scalarise_local_objects, desugar_module_name_tables, unify_duplicate_unpackings, erase_new_namedtuples, inline_new_helpers, scalarise_local_dicts, unroll_new_tables, propagate_new_constants
 
         # functions whose source differs from the pinned tree (digest of ast.dump): only those are rewritten by the
         # statement-level normalisations that would otherwise also touch pinned code
@@ -324,6 +324,10 @@ class Model:
             self.cms_dissolved += d_
             self._reindex()
 
+        if self.cms_dissolved:
+            hashes_ = {q for q, f_ in self.functions.items() if not f_.module.short.startswith("_typeguard") and HASHES.get(q) != hashlib.sha1(ast.dump(f_.node).encode()).hexdigest()[:12]}
+            if unify_duplicate_unpackings(self, hashes_):
+                self._reindex()
         self.name_tables = desugar_module_name_tables(self, MODULE_NAMES)
         if self.name_tables:
             self._reindex()
@@ -356,6 +360,12 @@ class Model:
                 self._reindex()
             self.absorbed = drop_absorbed_helpers(self, FUNCTIONS)
             if self.absorbed:
+                self._reindex()
+        if self.cms_dissolved:
+            hashes_ = {q for q, f_ in self.functions.items() if not f_.module.short.startswith("_typeguard") and HASHES.get(q) != hashlib.sha1(ast.dump(f_.node).encode()).hexdigest()[:12]}
+            if propagate_local_aliases(self, hashes_):
+                self._reindex()
+            if unify_duplicate_unpackings(self, hashes_):
                 self._reindex()
         if desugar_return_all_any(self):
             self._reindex()
